@@ -506,10 +506,9 @@ where
     fn split_text<'b>(&'slf self, delimiter: &'b str) -> SplitTextIter<'store, 'b> {
         SplitTextIter {
             resource: self.resource(),
-            iter: self.store().text().split(delimiter),
-            byteoffset: self
-                .subslice_utf8_offset(self.text())
-                .expect("subslice must succeed for split_text"),
+            //split only the text of this selection (the iterator resolves the pieces to absolute positions itself)
+            iter: self.text().split(delimiter),
+            byteoffset: 0,
         }
     }
 
@@ -709,10 +708,9 @@ where
     fn split_text<'b>(&'slf self, delimiter: &'b str) -> SplitTextIter<'store, 'b> {
         SplitTextIter {
             resource: self.resource(),
-            iter: self.store().text().split(delimiter),
-            byteoffset: self
-                .subslice_utf8_offset(self.text())
-                .expect("subslice must succeed for split_text"),
+            //split only the text of this selection (the iterator resolves the pieces to absolute positions itself)
+            iter: self.text().split(delimiter),
+            byteoffset: 0,
         }
     }
 
